@@ -88,7 +88,7 @@ CHECKS['C13'] = {
 }
 CHECKS['C06'] = {
     'level': 'proof',
-    'units': ['acc'],
+    'units': ['acc', 'lst'],
     'kani': [
         _k('uint_encode_u8', 'all u8: shortest big-endian form, decode(encode) == v'), _k('uint_decode_u8', 'all strings <= 3 bytes: value or error by length'),
         _k('uint_encode_u16', 'all u16'), _k('uint_decode_u16', 'all strings <= 4 bytes'),
@@ -96,11 +96,11 @@ CHECKS['C06'] = {
         _k('uint_encode_u64', 'all u64'), _k('uint_decode_u64', 'all strings <= 10 bytes'),
     ],
     'technique': 'Kani/CBMC complete harnesses on the real option_value conversions (all values of all four widths) + Verus whole-view contracts on the Packet accessors',
-    'level_text': 'Complete for unsigned values: for every value of every width the encoding equals an independently written minimal big-endian reference and decodes back; every byte string up to width+2 decodes to its big-endian value or is rejected exactly when longer than the width (the rejection branch does not read the contents). The raw and typed Packet accessors are verified in Verus for all packets: they store exactly into(value) / return exactly try_from(stored value), element order preserved.',
-    'level_note': 'Trusted: Kani/CBMC, Verus/Z3/vstd, R1. Not covered: text options (String::from_utf8 / into_bytes are std, not re-verified) and the list forms get_options_as / set_options_as (iterator map/collect).',
-    'trusted': [T_KANI, T_VERUS, T_R1],
-    'not_covered': ['OptionValueString (std UTF-8 validation trusted, thin wrappers)', 'get_options_as / set_options_as (iter().map().collect())'],
-    'explanation': 'option_from_uint/option_to_uint through the four public wrapper types; Packet::{add_option,get_option,get_first_option,set_option,clear_option,add_option_as,get_first_option_as}',
+    'level_text': 'Complete for unsigned values: for every value of every width the encoding equals an independently written minimal big-endian reference and decodes back; every byte string up to width+2 decodes to its big-endian value or is rejected exactly when longer than the width (the rejection branch does not read the contents). The raw and typed Packet accessors are verified in Verus for all packets: they store exactly into(value) / return exactly try_from(stored value), element order preserved. Unit lst: set_options_as stores one into(element) per element in order and replaces only that option; get_options_as returns one try_from(stored value) per stored value in order; the text option value encodes with String::into_bytes and decodes with String::from_utf8 (Ok exactly for valid UTF-8), so every string round-trips.',
+    'level_note': 'Trusted: Kani/CBMC, Verus/Z3/vstd, R1. Unit lst assumes: String::from_utf8 / into_bytes are inverse on text (axioms over utf8_text / utf8_bytes; std UTF-8 validation itself is not re-verified) and `iter().map(f).collect()` yields f(element i) at position i (wrapper R33; the closures are the real ones).',
+    'trusted': [T_KANI, T_VERUS, T_R1, 'unit lst: String::from_utf8 / String::into_bytes (assumed inverse on text), iter().map(f).collect() read as a map-and-collect wrapper (R33), constructor passed as function eta-expanded (R31), FromUtf8Error::to_string stubbed'],
+    'not_covered': ['the UTF-8 validation inside std (String::from_utf8) is trusted, not verified', 'OptionValueU8 / OptionValueU64 Packet-level instances (the conversions themselves are covered by Kani)'],
+    'explanation': 'option_from_uint/option_to_uint through the four public wrapper types; Packet::{add_option,get_option,get_first_option,set_option,clear_option,add_option_as,get_first_option_as,set_options_as,get_options_as}; OptionValueString conversions',
 }
 CHECKS['C05']['kani'] = [_k('is_error_iff_byte_ge_0x80', 'all 256 code bytes through the real From<u8> and the derived PartialOrd: is_error() == (byte >= 0x80)')]
 CHECKS['C05']['trusted'].append(T_KANI)
